@@ -108,7 +108,34 @@ def live_field(R, st, f):
 
 
 def final_state(ctx, R, o, root):
-    return final_read(ctx, o, root, (("f", R["state_f"]),))
+    v = final_read(ctx, o, root, (("f", R["state_f"]),))
+    return materialise(ctx, R, o, v)
+
+
+def materialise(ctx, R, o, v):
+    """a state that was updated in place through a downcast (`if let Ok { ready, .. } = &mut l.state { .. }`) is a chain of
+    field updates on the entry value; when the path knows the variant, rebuild it as the aggregate of that variant's fields
+    (the form a take-and-restore implementation produces)"""
+    if not (isinstance(v, tuple) and v and v[0] == "upd"):
+        return v
+    base = v
+    while isinstance(base, tuple) and base and base[0] == "upd":
+        base = base[1]
+    var = variant_at_end(o, v)
+    if var is None:
+        var = o.cons.variant_of(base)
+    a = ctx.facts.adts.get(R["state_ty"])
+    if var is None or not a:
+        return v
+    fields = None
+    for vv in a["variants"]:
+        if vv["name"] == var:
+            fields = [f["name"] for f in vv["fields"]]
+    if fields is None:
+        return v
+    pxx = P.PX(ctx.facts)
+    down = pxx.project(None, v, ("as", var))
+    return agg("adt", R["state_ty"], var, tuple((f, pxx.project(None, down, ("f", f))) for f in fields))
 
 
 def variant_at_end(o, v):
